@@ -154,7 +154,30 @@ func runPktRoundtrip(d hdrDesc, payload []byte, pad int) Outcome {
 	case p.PaddingSize != q.PaddingSize:
 		o.Fail = "decoded padding size differs"
 	}
+	// "Unmarshal of those bytes yields an equal packet" whatever the receiver decoded before
+	if o.Fail == "" {
+		for k, w := range usedReceiverWires {
+			var u rtp.Packet
+			if pn, what := catch(func() { _ = u.Unmarshal(append([]byte{}, w...)); uerr = u.Unmarshal(bs) }); pn {
+				o.Fail = "Unmarshal into a used packet panicked: " + what
+				break
+			}
+			if uerr != nil || !hdrEquivalent(&p.Header, &u.Header) || !bytes.Equal(p.Payload, u.Payload) || p.PaddingSize != u.PaddingSize {
+				o.Fail = fmt.Sprintf("decoded into a packet that had decoded %x before (receiver %d): differs from the packet marshalled (err %v)", w, k, uerr)
+				break
+			}
+		}
+	}
 	return o
+}
+
+// wire images a receiver has decoded before the one under test: 15 CSRCs with a two-byte extension
+// block and RTP padding; three CSRCs with a one-byte block; the bare fixed header
+var usedReceiverWires = [][]byte{
+	append(append(append([]byte{0xBF, 0xE0, 0, 9, 0, 0, 0, 7, 0, 0, 0, 5}, bytes.Repeat([]byte{0xC5, 0xC6, 0xC7, 0xC8}, 15)...),
+		0x10, 0x00, 0, 3, 7, 3, 0x71, 0x72, 0x73, 200, 0, 9, 3, 0x91, 0x92, 0x93), 0xD1, 0xD2, 0xD3, 0, 0, 3),
+	{0x93, 0x60, 0, 9, 0, 0, 0, 7, 0, 0, 0, 5, 0, 0, 0, 1, 0, 0, 0, 2, 0, 0, 0, 3, 0xBE, 0xDE, 0, 2, 0x32, 0xA1, 0xA2, 0xA3, 0xE0, 0xB1, 0, 0, 0xEE},
+	{0x80, 0x60, 0, 9, 0, 0, 0, 7, 0, 0, 0, 5},
 }
 
 func runHdrRoundtrip(d hdrDesc) Outcome {
@@ -192,6 +215,20 @@ func runHdrRoundtrip(d hdrDesc) Outcome {
 		o.Fail = fmt.Sprintf("sizes differ: marshal %d, MarshalSize %d, n %d", len(bs), size, n)
 	case !hdrEquivalent(&h, &q):
 		o.Fail = "decoded header differs"
+	}
+	if o.Fail == "" {
+		for k, w := range usedReceiverWires {
+			var u rtp.Header
+			var n2 int
+			if pn, what := catch(func() { _, _ = u.Unmarshal(append([]byte{}, w...)); n2, uerr = u.Unmarshal(bs) }); pn {
+				o.Fail = "Unmarshal into a used header panicked: " + what
+				break
+			}
+			if uerr != nil || n2 != size || !hdrEquivalent(&h, &u) {
+				o.Fail = fmt.Sprintf("decoded into a header that had decoded %x before (receiver %d): differs from the header marshalled (n %d, err %v)", w, k, n2, uerr)
+				break
+			}
+		}
 	}
 	return o
 }
